@@ -81,7 +81,9 @@ func probeForm(r *rng.R, depth int) Form {
 func probeAttrs(r *rng.R, depth int, taken bool, classTaken *bool) []PAttr {
 	var l []PAttr
 	for i := 1 + r.Intn(3); i > 0; i-- {
-		switch k := r.Intn(6); {
+		switch k := r.Intn(7); {
+		case k == 6:
+			l = append(l, PAttr{Kind: "const", N: r.Intn(6)})
 		case k < 2 && depth > 0:
 			a := PAttr{Kind: "if", Cond: r.Intn(3) != 0}
 			a.Then = probeAttrs(r, depth-1, taken && a.Cond, classTaken)
@@ -109,6 +111,69 @@ func probeAttrs(r *rng.R, depth int, taken bool, classTaken *bool) []PAttr {
 		}
 	}
 	return l
+}
+
+func probeConsts(r *rng.R, min, max int) []PAttr {
+	var l []PAttr
+	for i := min + r.Intn(max-min+1); i > 0; i-- {
+		l = append(l, PAttr{Kind: "const", N: r.Intn(6)})
+	}
+	return l
+}
+
+// probeSparse draws an element all of whose attributes are constant except for one or two expression attributes (an
+// on* handler, a class expression) that sit together at one place of an if/else tree: path "" is the top level, "T"
+// the then branch, "E" the else branch, "EE" the else branch of an if inside an else branch, and so on. The branches
+// off the path hold constants only (an else branch off the path may be absent); the conditions lead to the place in
+// three of four cases.
+func probeSparse(r *rng.R) ([]PAttr, string) {
+	n := r.Intn(4)
+	path := ""
+	for i := 0; i < n; i++ {
+		path += rng.Pick(r, []string{"T", "E", "E"})
+	}
+	taken := r.Intn(4) != 0
+	var leaf []PAttr
+	switch r.Intn(4) {
+	case 0:
+		a := PAttr{Kind: "class"}
+		for j := 1 + r.Intn(2); j > 0; j-- {
+			a.Forms = append(a.Forms, probeForm(r, 1))
+		}
+		leaf = []PAttr{a}
+	case 1:
+		s := probeScript(r)
+		a := PAttr{Kind: "class", Forms: []Form{probeForm(r, 1)}}
+		leaf = []PAttr{{Kind: "on", S: &s}, a}
+	default:
+		s := probeScript(r)
+		leaf = []PAttr{{Kind: "on", S: &s}}
+	}
+	var build func(p string, miss bool) []PAttr
+	build = func(p string, miss bool) []PAttr {
+		l := probeConsts(r, 0, 2)
+		if p == "" {
+			l = append(l, leaf...)
+		} else {
+			a := PAttr{Kind: "if", Cond: p[0] == 'T'}
+			if miss {
+				// the place is not reached: the first condition on the way points elsewhere
+				a.Cond = !a.Cond
+			}
+			on := append(build(p[1:], false), probeConsts(r, 0, 1)...)
+			if p[0] == 'T' {
+				a.Then = on
+				if r.Intn(2) == 0 {
+					a.Else = probeConsts(r, 1, 2)
+				}
+			} else {
+				a.Then, a.Else = probeConsts(r, 1, 2), on
+			}
+			l = append(l, a)
+		}
+		return append(l, probeConsts(r, 0, 1)...)
+	}
+	return build(path, !taken && path != ""), path
 }
 
 func ifDepth(l []PAttr) int {
@@ -182,6 +247,10 @@ func expandOps(ops []Op) []Op {
 
 func probeOp(r *rng.R, depth int) Op {
 	k := r.Intn(12)
+	if r.Intn(5) == 0 {
+		attrs, path := probeSparse(r)
+		return Op{Tag: "X", Attrs: attrs, Text: "sparse:" + path}
+	}
 	if r.Intn(4) == 0 {
 		ct := false
 		return Op{Tag: "X", Attrs: probeAttrs(r, 3, true, &ct)}
@@ -314,6 +383,10 @@ func (s Script) src() string { return fmt.Sprintf("%s(%s)", s.Name, q(s.Call)) }
 
 var handlerAttrs = []string{"onclick", "onmouseover", "onfocus"}
 
+// constant attributes of probe elements (the model's element has none: normAttrs drops them)
+var constAttrs = []string{`title="t"`, `lang="en"`, `dir="ltr"`, `title="u"`, `lang="de"`, `dir="rtl"`}
+var reConstAttr = regexp.MustCompile(` (?:title|lang|dir)="[a-z]*"`)
+
 func attrsSrc(sb *strings.Builder, attrs []PAttr, indent string, n *int) {
 	for _, a := range attrs {
 		switch a.Kind {
@@ -326,6 +399,8 @@ func attrsSrc(sb *strings.Builder, attrs []PAttr, indent string, n *int) {
 		case "on":
 			sb.WriteString(indent + handlerAttrs[*n%len(handlerAttrs)] + "={ " + a.S.src() + " }\n")
 			*n++
+		case "const":
+			sb.WriteString(indent + constAttrs[a.N%len(constAttrs)] + "\n")
 		case "if":
 			cond := "bf"
 			if a.Cond {
@@ -462,6 +537,7 @@ var reOneAttr = regexp.MustCompile(` [a-z]+="[^"]*"`)
 // normAttrs gives every handler attribute the name the model uses and puts the class attribute first (the model
 // writes class before the handlers; a template may have them in any order).
 func normAttrs(s string) string {
+	s = reConstAttr.ReplaceAllString(s, "")
 	for _, a := range handlerAttrs[1:] {
 		s = strings.ReplaceAll(s, " "+a+`="`, ` onclick="`)
 	}
@@ -476,6 +552,17 @@ func normAttrs(s string) string {
 		}
 		return "<div" + strings.Join(cls, "") + strings.Join(rest, "") + ">"
 	})
+}
+
+var reBuildErr = regexp.MustCompile(`(?m)^\./(p\d+_templ\.go):(\d+):`)
+var reGenFunc = regexp.MustCompile(`^func (?:p(\d+)(?:c\d+)?|[A-Za-z_0-9]+)\(`)
+
+func firstLines(s string, n int) string {
+	l := strings.Split(s, "\n")
+	if len(l) > n {
+		l = l[:n]
+	}
+	return strings.Join(l, "\n")
 }
 
 func goEnv() []string {
@@ -510,7 +597,9 @@ func probes(c *core.Ctx) {
 		}
 		srcStart := src.Len()
 		for _, o := range ops {
-			if o.Tag == "X" {
+			if o.Tag == "X" && strings.HasPrefix(o.Text, "sparse:") {
+				c.Hist("probe: element whose only expression attributes sit at branch path \"" + o.Text[len("sparse:"):] + "\" among constants")
+			} else if o.Tag == "X" {
 				c.Hist(fmt.Sprintf("probe: element with attributes under if/else nested to depth %d", ifDepth(o.Attrs)))
 			}
 		}
@@ -541,49 +630,57 @@ func probes(c *core.Ctx) {
 
 	// One .templ file per 100 pages (the shared declarations go into the first): the templ parser was seen to
 	// reject a single ~199 KB file of 732 templates each of which it accepts, so probe files are kept small.
-	genFiles := map[string]string{}
-	headEnd := strings.Index(src.String(), ps[0].src)
-	for lo := 0; lo < n; lo += 100 {
-		hi := lo + 100
-		if hi > n {
-			hi = n
-		}
-		var unit strings.Builder
-		if lo == 0 {
-			unit.WriteString(src.String()[:headEnd])
-		} else {
-			unit.WriteString("package main\n\n")
-		}
-		for _, p := range ps[lo:hi] {
-			unit.WriteString(p.src)
-		}
-		tf, err := parser.ParseString(unit.String())
-		if err != nil {
-			ctxt := ""
-			for _, p := range ps[lo:hi] {
-				if _, e := parser.ParseString("package main\n\n" + p.src); e != nil {
-					ctxt = e.Error() + "\n" + p.src
-					break
-				}
-			}
-			fail("probe source parses", err.Error()+"\n"+ctxt)
-			return
-		}
-		var gen bytes.Buffer
-		if _, err = generator.Generate(tf, &gen); err != nil {
-			fail("probe source generates", err.Error())
-			return
-		}
-		genFiles[fmt.Sprintf("p%d_templ.go", lo/100)] = gen.String()
-	}
+	head := src.String()[:strings.Index(src.String(), ps[0].src)]
 	dir, err := os.MkdirTemp("", "verif_c12_probe")
 	if err != nil {
 		fail("scratch directory", err.Error())
 		return
 	}
 	defer os.RemoveAll(dir)
-	var mainSrc strings.Builder
-	mainSrc.WriteString(`package main
+	sum, _ := os.ReadFile(filepath.Join(core.Repo(), "go.sum"))
+	// buildRun generates, compiles and runs the pages listed in active. When the generated code does not compile it
+	// returns the compiler's output and the pages the errors lie in.
+	buildRun := func(active []int) (d probeDump, ok bool, compileErr string, bad map[int]bool) {
+		old, _ := filepath.Glob(filepath.Join(dir, "p*_templ.go"))
+		for _, f := range old {
+			os.Remove(f)
+		}
+		genFiles := map[string]string{}
+		for lo := 0; lo < len(active); lo += 100 {
+			hi := lo + 100
+			if hi > len(active) {
+				hi = len(active)
+			}
+			var unit strings.Builder
+			if lo == 0 {
+				unit.WriteString(head)
+			} else {
+				unit.WriteString("package main\n\n")
+			}
+			for _, i := range active[lo:hi] {
+				unit.WriteString(ps[i].src)
+			}
+			tf, err := parser.ParseString(unit.String())
+			if err != nil {
+				ctxt := ""
+				for _, i := range active[lo:hi] {
+					if _, e := parser.ParseString("package main\n\n" + ps[i].src); e != nil {
+						ctxt = e.Error() + "\n" + ps[i].src
+						break
+					}
+				}
+				fail("probe source parses", err.Error()+"\n"+ctxt)
+				return
+			}
+			var gen bytes.Buffer
+			if _, err = generator.Generate(tf, &gen); err != nil {
+				fail("probe source generates", err.Error())
+				return
+			}
+			genFiles[fmt.Sprintf("p%d_templ.go", lo/100)] = gen.String()
+		}
+		var mainSrc strings.Builder
+		mainSrc.WriteString(`package main
 
 import (
 	"bytes"
@@ -617,10 +714,10 @@ func main() {
 	}
 	pages := []templ.Component{
 `)
-	for i := 0; i < n; i++ {
-		fmt.Fprintf(&mainSrc, "\t\tp%d(),\n", i)
-	}
-	mainSrc.WriteString(`	}
+		for _, i := range active {
+			fmt.Fprintf(&mainSrc, "\t\tp%d(),\n", i)
+		}
+		mainSrc.WriteString(`	}
 	for _, p := range pages {
 		var b bytes.Buffer
 		if err := p.Render(context.Background(), &b); err != nil {
@@ -638,38 +735,111 @@ func main() {
 	json.NewEncoder(os.Stdout).Encode(out)
 }
 `)
-	sum, _ := os.ReadFile(filepath.Join(core.Repo(), "go.sum"))
-	files := map[string]string{
-		"go.mod":      "module probe\n\ngo 1.23.0\n\nrequire github.com/a-h/templ v0.0.0\n\nreplace github.com/a-h/templ => " + core.Repo() + "\n",
-		"go.sum":      string(sum),
-		"main.go":     mainSrc.String(),
-		"p.templ.txt": src.String(),
+		files := map[string]string{
+			"go.mod":      "module probe\n\ngo 1.23.0\n\nrequire github.com/a-h/templ v0.0.0\n\nreplace github.com/a-h/templ => " + core.Repo() + "\n",
+			"go.sum":      string(sum),
+			"main.go":     mainSrc.String(),
+			"p.templ.txt": src.String(),
+		}
+		for f, g := range genFiles {
+			files[f] = g
+		}
+		for f, s := range files {
+			if err := os.WriteFile(filepath.Join(dir, f), []byte(s), 0o644); err != nil {
+				fail("scratch directory", err.Error())
+				return
+			}
+		}
+		build := exec.Command("timeout", "600", "go", "build", "-gcflags=-e", "-o", "probe", ".")
+		build.Dir, build.Env = dir, goEnv()
+		if o, err := build.CombinedOutput(); err != nil {
+			// which pages do the errors lie in: the template function of the generated file that holds the line
+			bad = map[int]bool{}
+			for _, m := range reBuildErr.FindAllStringSubmatch(string(o), -1) {
+				line, _ := strconv.Atoi(m[2])
+				pg := -1
+				for ln, l := range strings.Split(genFiles[m[1]], "\n") {
+					if ln >= line {
+						break
+					}
+					if f := reGenFunc.FindStringSubmatch(l); f != nil {
+						pg = -1
+						if len(f[1]) > 0 {
+							pg, _ = strconv.Atoi(f[1])
+						}
+					}
+				}
+				if pg < 0 {
+					// an error outside every page (shared declarations): nothing can be set aside
+					return d, false, string(o), nil
+				}
+				bad[pg] = true
+			}
+			return d, false, string(o), bad
+		}
+		run := exec.Command("timeout", "120", filepath.Join(dir, "probe"))
+		o, err := run.Output()
+		if err != nil {
+			fail("probe program runs", err.Error())
+			return
+		}
+		if err := json.Unmarshal(o, &d); err != nil || len(d.Docs) != len(active) {
+			fail("probe program output", fmt.Sprint(err))
+			return
+		}
+		return d, true, "", nil
 	}
-	for f, g := range genFiles {
-		files[f] = g
+	active := make([]int, n)
+	for i := range active {
+		active[i] = i
 	}
-	for f, s := range files {
-		if err := os.WriteFile(filepath.Join(dir, f), []byte(s), 0o644); err != nil {
-			fail("scratch directory", err.Error())
+	var d probeDump
+	compiles := true
+	for attempt := 0; ; attempt++ {
+		dd, ok, cerr, bad := buildRun(active)
+		if ok {
+			d = dd
+			break
+		}
+		if cerr == "" {
+			return // reported by buildRun
+		}
+		if len(bad) == 0 || attempt >= 3 {
+			fail("generated code compiles", core.Q([]byte(cerr)))
+			return
+		}
+		if compiles {
+			// valid templates for which the generator wrote Go code that does not compile: reported (the shortest one),
+			// then set aside so that the other pages are still rendered and judged
+			compiles = false
+			at := -1
+			for i := range bad {
+				if at < 0 || len(ps[i].src) < len(ps[at].src) {
+					at = i
+				}
+			}
+			c.Fail("tie", name+": generated code compiles", "", map[string]any{"templ_source": ps[at].src, "pages_affected": len(bad)},
+				"the Go code the generator wrote for this template does not compile: "+firstLines(cerr, 6))
+		}
+		var rest []int
+		for _, i := range active {
+			if !bad[i] {
+				rest = append(rest, i)
+			}
+		}
+		active = rest
+		if len(active) == 0 {
+			fail("generated code compiles", core.Q([]byte(cerr)))
 			return
 		}
 	}
-	build := exec.Command("timeout", "600", "go", "build", "-o", "probe", ".")
-	build.Dir, build.Env = dir, goEnv()
-	if o, err := build.CombinedOutput(); err != nil {
-		fail("generated code compiles", core.Q(o))
-		return
-	}
-	run := exec.Command("timeout", "120", filepath.Join(dir, "probe"))
-	o, err := run.Output()
-	if err != nil {
-		fail("probe program runs", err.Error())
-		return
-	}
-	var d probeDump
-	if err := json.Unmarshal(o, &d); err != nil || len(d.Docs) != n {
-		fail("probe program output", fmt.Sprint(err))
-		return
+	c.Oblige("correspondence", name+": the Go code the generator writes for every probe template compiles", compiles, "")
+	if len(active) < n {
+		var kept []probe
+		for _, i := range active {
+			kept = append(kept, ps[i])
+		}
+		ps, n = kept, len(kept)
 	}
 
 	// the model on the same histories, with the values the generated code really uses
@@ -712,7 +882,7 @@ func main() {
 			c.Hist("probe: two pages in one context")
 		}
 		run, chk := res[2*i], res[2*i+1]
-		if len(run) != 5 || len(chk) != 2 {
+		if len(run) != 6 || len(chk) != 2 {
 			tieOK = false
 			continue
 		}
